@@ -162,8 +162,11 @@ MeshLoadOf(fl, sv) ==
 \* probes / screening decide which per-step records exist (mu, theta at the probe points; screening_iterations)
 \* dyn: which inputs of the run depend on time, so that every frame stores its own array of them:
 \*   "none" | "eps" (disorder_epsilon(r, *, t), a plain function) | "A" (time-dependent applied vector potential) | "both"
-SolShapes == {s \in [mode : {"copy", "inplace", "deleted", "nofile", "solved"}, nframes : 1..4, cur : 1..4, probes : BOOLEAN,
-                      screening : BOOLEAN, dyn : {"none", "eps", "A", "both"}] : s.dyn # "none" => (s.probes /\ ~s.screening)}
+SolShapes == {s \in [mode : {"copy", "inplace", "deleted", "nofile", "solved"}, nframes : {1, 2, 3, 4, 12}, cur : {1, 2, 3, 4, 12}, probes : BOOLEAN,
+                      screening : BOOLEAN, dyn : {"none", "eps", "A", "both"}] :
+                  /\ s.dyn # "none" => (s.probes /\ ~s.screening)
+                  \* (more recorded steps than nine: the frame names no longer sort as text in step order)
+                  /\ s.nframes = 12 => (s.probes /\ s.dyn = "none" /\ s.cur \in {1, 12})}
 \* "solved": the file tdgl.solve itself wrote under output_file.  solve() returns the last step.
 SolOK(s) == s.cur <= s.nframes /\ (s.mode \in {"nofile", "solved"} => s.cur = s.nframes)
 NoFile(s) == s.mode \in {"deleted", "nofile"}
@@ -239,7 +242,7 @@ Remove == /\ pc = "loaded" /\ gen = 1 /\ kind # "options"
           /\ UNCHANGED <<kind, shape, saved, loaded, memo, recomp>>
 
 MMaterialise == Materialise(SymSaved, SymRecomp)
-MBrowse == pc = "loaded" /\ \E k \in -4..3 : Browse(k)
+MBrowse == pc = "loaded" /\ \E k \in -12..11 : Browse(k)
 Next == Deviate \/ Shape \/ MMaterialise \/ Save \/ Load \/ MBrowse \/ Remove
 Spec == Init /\ [][Next]_vars
 
